@@ -300,13 +300,22 @@ func fp(h hash.Hash, v reflect.Value, ptrs map[uintptr]int) {
 			h.Write([]byte("l0"))
 			return
 		}
+		// The spare capacity beyond len is memory the caller owns too: an append-in-place by
+		// the library shows there (and in any other slice that shares the backing array).
+		full := v
+		if v.Cap() > v.Len() && v.CanInterface() {
+			full = v.Slice3(0, v.Cap(), v.Cap())
+		}
 		if v.Type().Elem().Kind() == reflect.Uint8 {
-			fmt.Fprintf(h, "b%d:%x", v.Len(), v.Bytes())
+			fmt.Fprintf(h, "b%d:%x|%x", v.Len(), v.Bytes(), full.Bytes()[v.Len():])
 			return
 		}
 		fmt.Fprintf(h, "l%d[", v.Len())
-		for i := 0; i < v.Len(); i++ {
-			fp(h, v.Index(i), ptrs)
+		for i := 0; i < full.Len(); i++ {
+			if i == v.Len() {
+				h.Write([]byte("|spare:"))
+			}
+			fp(h, full.Index(i), ptrs)
 			h.Write([]byte(","))
 		}
 		h.Write([]byte("]"))
